@@ -45,6 +45,9 @@ func loginFor(cls, user string) *envx.Login {
 		l.BadSig = true
 	case "wrongiss":
 		l.Issuer = "http://evil.example"
+	case "subissuer", "issuerslash":
+		// issuers that are not the provider's but look like it: a path below it, the same with a slash appended
+		l.Issuer = "<" + cls + ">"
 	case "wrongaud":
 		l.Audience = "some-other-client"
 	case "expired":
@@ -89,6 +92,12 @@ func startLogin(b *Browser, query string) (authURL, state string, hop *Hop, err 
 // callbackURL asks the IdP for a code (login behaviour l) and returns the
 // callback URL the IdP redirects to, rebased to the real gateway address.
 func callbackURL(b *Browser, authURL string, l *envx.Login) (string, error) {
+	switch l.Issuer {
+	case "<subissuer>":
+		l.Issuer = b.I.IdP.URL + "/tenants/other"
+	case "<issuerslash>":
+		l.Issuer = b.I.IdP.URL + "/"
+	}
 	id := b.I.IdP.Register(l)
 	h, err := b.Get(authURL + "&verif_login=" + id)
 	if err != nil {
